@@ -233,6 +233,17 @@ fn discard_case(ctx: &WorkerCtx, rep: &mut WorkerReport, case_seed: u64) {
     // both continue identically; often the very next block is an empty one (nothing re-initialises
     // the per-block bookkeeping before it is finalised)
     let ext_start = a.log.len();
+    // the last commit includes what a rollback needs: one time in three the continuation starts with a
+    // rollback below the height the instance came back at
+    if a.ntx == 0 && a.height > w.base as i64 + 1 && rng.chance(1, 3) {
+        let n = (a.height as u64).saturating_sub(rng.range(1, 3)).max(w.base);
+        if (n as i64) < a.height && a.max_ever - (n as i64) <= 10 {
+            let r = a.exec(Op::Reorg { n });
+            if r.is_ok() {
+                rep.nontrivial(format!("rollback-after-{}", kind));
+            }
+        }
+    }
     if rng.chance(1, 2) && a.height >= 0 {
         if rng.chance(1, 2) {
             w.ts += 5;
